@@ -4,6 +4,7 @@
   Removing a same-file guard, moving it behind `os.Create` / `os.Rename`, calling `os.Remove` before the copy
   error is checked, removing on the error path, … change a generated list and break these lemmas.
 -/
+import Glb.Generated.StatusOsutil
 import Glb.Model.Files
 
 namespace Glb.Tie.Osutil
@@ -49,5 +50,8 @@ theorem remove_only_after_successful_copy :
 theorem pinned_is_unguarded :
     pinnedCopyProg = copyProg.take 3 ++ copyProg.drop 7 ∧ pinnedMoveProg = moveProg.drop 3 := by
   decide
+
+/-- the extractor of this area recognised the source as it is on this run (a refusal removes `ok`) -/
+theorem extractor_ok : Glb.Generated.StatusOsutil.ok = () := rfl
 
 end Glb.Tie.Osutil
